@@ -133,8 +133,9 @@ def constructor_mirror(ctx: Ctx, rule1: str, rule2: str, rule3: str, rule4: str)
     derived = [ast.unparse(e) for e in variant[0].targets[0].elts] if len(variant) == 1 else [None, None, None]
     if len(normal) < 20:
         raise AnalysisError(f"{INIT}: only {len(normal)} normal paths")
-    probs = {rule1: [], rule2: [], rule3: [], rule4: []}
+    probs = {rule1: [], rule1 + "n": [], rule2: [], rule3: [], rule4: []}
     n_pairs = 0
+    n_lookups = [0]
     for v in normal:
         d = _collect(v, n1, n2)
         if any(side == -1 for _, side in d):
@@ -151,6 +152,24 @@ def constructor_mirror(ctx: Ctx, rule1: str, rule2: str, rule3: str, rule4: str)
                                          f"({a}[{side[s_loc]}]={loc}, {b}[{side[s_rem]}]={rem})", v, d))
                 elif loc != rem:
                     probs[rule1].append((f"{a} of the {side[s_loc]} side ({loc}) differs from {b} of the {side[s_rem]} side ({rem})", v, d))
+        # an end point's own network is looked up on its own node through the configuration that describes that end: the left one by the
+        # left local configuration, the right one by the left remote configuration (what _get_peer_variant turns into the right local one)
+        for side, node_, cfg, other in ((1, n1, p[4], p[5]), (2, n2, p[5], p[4])):
+            for stem in ("vpnconn_lan_net", "vpnconn_lan_netmask"):
+                val = d.get((stem, side))
+                if val is None or ".interfaces[" not in val:
+                    continue
+                n_lookups[0] += 1
+                for sub in ast.walk(ast.parse(val, mode="eval")):
+                    if isinstance(sub, ast.Subscript) and isinstance(sub.value, ast.Attribute) and sub.value.attr == "interfaces":
+                        owner = ast.unparse(sub.value.value)
+                        names = {x.id for x in ast.walk(sub.slice) if isinstance(x, ast.Name)}
+                        side_txt = {1: "left", 2: "right"}[side]
+                        if owner != node_:
+                            probs[rule1 + "n"].append((f"{stem} of the {side_txt} side is looked up on {owner}, not on the {side_txt} node", v, d))
+                        elif other in names and cfg not in names:
+                            probs[rule1 + "n"].append((f"{stem} of the {side_txt} side is looked up through the nic role of `{other}` "
+                                                       f"(the configuration of the other end) instead of `{cfg}`: {val}", v, d))
         # peers
         want_sides = {("vpn_side", 1): "'left'", ("vpn_side", 2): "'right'", ("vpnconn", 1): "name", ("vpnconn", 2): "name"}
         for k, val in want_sides.items():
@@ -204,6 +223,10 @@ def constructor_mirror(ctx: Ctx, rule1: str, rule2: str, rule3: str, rule4: str)
                    "" if not pr else pr[0][0])
 
     rec(rule1, "on every path: lan_net/netmask[left] == remote_net/netmask[right] and lan_net/netmask[right] == remote_net/netmask[left] (written together)")
+    rec(rule1 + "n", "each end's own network is read from its own node's interface, selected by the nic role of the configuration describing that end "
+                     "(left: local1, right: remote1)")
+    if n_lookups[0] == 0:
+        raise AnalysisError("no interface lookups of the end points' own networks found")
     rec(rule2, "peer_ip[right] from the left node's interfaces, peer_ip[left] from the right node's (only for peer type ip); vpn_side left/right; name on both")
     rec(rule3, "PSK: foreign_id[left] == own_id[right], own_id[left] == foreign_id[right], same for the id types")
     rec(rule4, "type parameters: left from the given configuration, right from the derived peer variant")
@@ -569,6 +592,7 @@ MUTANTS = [
     ("route-mask-unwritten-key", "vmnet/network.py", "                    .get(\"vpnconn_remote_netmask\")\n                )\n            logging.debug(\n                \"Retrieved previous network", "                    .get(\"vpnconn_remote_mask\")\n                )\n            logging.debug(\n                \"Retrieved previous network", "8"),
     ("auth-none-refused", "vmnet/tunnel.py", "        if auth is None or auth[\"type\"] == \"none\":", "        if auth is None:", "5"),
     ("peer-variant-nic-unguarded", "vmnet/tunnel.py", "right_remote[\"nic\"] = left_local.get(\"nic\", \"lan_nic\")", "right_remote[\"nic\"] = left_local[\"nic\"]", "8n"),
+    ("right-lan-by-left-role", TUN, "node2.params[remote1.get(\"nic\", \"lan_nic\")]", "node2.params[local1.get(\"nic\", \"lan_nic\")]", "1n"),
     ("custom-not-mirrored", TUN, "            params[\"vpnconn_remote_net_%s_%s\" % (name, node2.name)] = local1[\"lnet\"]\n            params[\"vpnconn_remote_netmask_%s_%s\" % (name, node2.name)] = local1[\n                \"lmask\"\n            ]\n", "", "1"),
     ("remote-net-from-own-lan", TUN, "            params[\"vpnconn_remote_net_%s_%s\" % (name, node1.name)] = netconfig2.net_ip", "            params[\"vpnconn_remote_net_%s_%s\" % (name, node1.name)] = netconfig1.net_ip", "1"),
     ("peer-ip-own-interface", TUN, "        interface1 = node1.interfaces[node1.params[peer2.get(\"nic\", \"internet_nic\")]]", "        interface1 = node2.interfaces[node2.params[peer2.get(\"nic\", \"internet_nic\")]]", "2"),
